@@ -1,12 +1,28 @@
+import os, sys
+sys.path.insert(0, os.path.dirname(os.path.dirname(os.path.abspath(__file__))))
+import checklib
+
+
+def regen(ctx):
+    tv = ["kvstore/typedvalue.go:TypedValue." + m for m in ("Get", "Has", "Compute", "Set", "Delete")]
+    ts = ["kvstore/typedstore.go:TypedStore." + m for m in ("Get", "Has", "Set", "Delete", "Iterate")]
+    return checklib.regen_skeletons(ctx, tv + ts, extra_methods=["Get", "Set", "Delete", "Has", "Iterate"])
+
+
 SPEC = {
     "lean_props": "Hive.Props.C06",
+    "regen": regen,
     "lean_namespace": ["Hive.Typed", "Hive.Typed.Conc"],
     "driver": "drv_c06",
     "harness": "c06",
     "race": True,
     "theorems": ["C06_cache_coherent", "C06_transparent", "C06_stored_is_last_written", "C06_failure_atomic",
                  "C06_store_transparent", "C06_store_failure_atomic", "C06_store_iterate_stops_at_first_decode_error",
-                 "C06_serialised"],
+                 "C06_store_set_get", "C06_store_stored_is_last_written", "C06_fault_reported", "C06_old_compute_witness",
+                 "C06_serialised", "C06_serialised_coherent", "C06_serialised_readers", "C06_serialised_counter",
+                 "C06_skeleton_get", "C06_skeleton_has", "C06_skeleton_compute", "C06_skeleton_set", "C06_skeleton_delete",
+                 "C06_skeleton_store_get", "C06_skeleton_store_has", "C06_skeleton_store_set", "C06_skeleton_store_delete",
+                 "C06_skeleton_store_iterate"],
     "trusted_base": ["hand-written models Hive/Model/TypedValue.lean, TypedStore.lean, TypedConc.lean of kvstore/typedvalue.go and typedstore.go, "
                      "tied by differential execution with fault injection (harness/c06)",
                      "Go toolchain, compiled Lean driver, Go's sync.RWMutex semantics as written in Hive/Model/TypedConc.lean"],
